@@ -1,6 +1,6 @@
 (* What C14 asks for, stated independently of lal's control flow.
    Definitions only (no proofs). *)
-From Lal Require Import Common.LBytes Auth.AuthStr Auth.AuthSimple Auth.AuthRtsp Auth.AuthPaths Auth.AuthBlacklist.
+From Lal Require Import Common.LBytes Auth.AuthStr Auth.AuthSimple Auth.AuthRtsp Auth.AuthPaths Auth.AuthBlacklist Auth.AuthServeHls.
 Open Scope N_scope.
 
 (* ---- simple auth ---------------------------------------------------------- *)
@@ -97,3 +97,39 @@ Definition op_ok (ip : bytes) (o : bl_op) : Prop :=
   | BlHas _ => True
   | BlSleep s => (0 <= s)%Z        (* the clock does not go backwards *)
   end.
+
+(* ---- serveHls histories ------------------------------------------------------ *)
+Section ServeHlsSpec.
+  Variable md5raw : bytes -> bytes.
+  Variable parse_query : bytes -> option (list (bytes * bytes)).
+  Variable lower_uni : bytes -> bytes.
+
+  (* the history with the address each request came from *)
+  Fixpoint sh_run_tagged (cfg : sa_config) (root : bytes) (t : bl_table) (now : Z) (ops : list sh_op)
+    : list (bytes * hls_resp) :=
+    match ops with
+    | [] => []
+    | ShGet ip path query :: r =>
+        let '(t', resp) := serve_hls md5raw parse_query lower_uni cfg root t now ip path query in
+        (ip, resp) :: sh_run_tagged cfg root t' now r
+    | ShBlacklist ip dur :: r => sh_run_tagged cfg root (bl_add t ip dur now) now r
+    | ShSleep s :: r => sh_run_tagged cfg root t (now + s)%Z r
+    end.
+End ServeHlsSpec.
+
+Fixpoint sh_total_sleep (ops : list sh_op) : Z :=
+  match ops with
+  | [] => 0%Z
+  | ShSleep s :: r => (s + sh_total_sleep r)%Z
+  | _ :: r => sh_total_sleep r
+  end.
+
+Definition sh_op_ok (ip : bytes) (o : sh_op) : Prop :=
+  match o with
+  | ShBlacklist k _ => k <> ip
+  | ShGet _ _ _ => True
+  | ShSleep s => (0 <= s)%Z
+  end.
+
+(* "HLS content" = the handler was reached and opened a file *)
+Definition no_content (r : hls_resp) : Prop := forall p, r <> HrFile p.
